@@ -187,8 +187,13 @@ struct fac final : factory
   std::unique_ptr<val> null() const override { return v::mk(bf::null()); }
   template <std::size_t... I>
   static bf il_k(std::vector<unsigned> const &es, std::index_sequence<I...>) { return bf{v::en(es[I])...}; }
-  std::unique_ptr<val> il(std::vector<unsigned> const &es) const override
+  // exactly the given elements for up to 8; longer lists are padded to 16 / 32 / 64 elements by repeating the last
+  // element (a duplicate in an initializer list must not matter)
+  std::unique_ptr<val> il(std::vector<unsigned> const &es0) const override
   {
+    std::vector<unsigned> es{es0};
+    if (es.size() > 8)
+      es.resize(es.size() <= 16 ? 16 : es.size() <= 32 ? 32 : 64, es.back());
     switch (es.size())
     {
     case 0: return v::mk(bf{});
@@ -199,7 +204,10 @@ struct fac final : factory
     case 5: return v::mk(il_k(es, std::make_index_sequence<5>{}));
     case 6: return v::mk(il_k(es, std::make_index_sequence<6>{}));
     case 7: return v::mk(il_k(es, std::make_index_sequence<7>{}));
-    default: return v::mk(il_k(es, std::make_index_sequence<8>{}));
+    case 8: return v::mk(il_k(es, std::make_index_sequence<8>{}));
+    case 16: return v::mk(il_k(es, std::make_index_sequence<16>{}));
+    case 32: return v::mk(il_k(es, std::make_index_sequence<32>{}));
+    default: return v::mk(il_k(es, std::make_index_sequence<64>{}));
     }
   }
   std::unique_ptr<val> init(std::function<bool(unsigned)> const &f) const override
